@@ -121,9 +121,9 @@ pub fn args(q: i128) -> BTreeMap<String, ArgValue> {
     BTreeMap::from([("sender".to_string(), ArgValue::Address(sender())), ("receiver".to_string(), ArgValue::Address(receiver())), ("quantity".to_string(), ArgValue::Int(q))])
 }
 
-const COEFFS: [u64; 9] = [0, 1, 43, 44, 100, 255, 256, 999, 1000];
-const CONSTS: [u64; 3] = [0, 155_381, 1_000_000];
-const BOUNDARIES: [i128; 10] = [0, 23, 24, 255, 256, 65_535, 65_536, 4_294_967_295, 4_294_967_296, 1_000_000_000];
+pub const COEFFS: [u64; 9] = [0, 1, 43, 44, 100, 255, 256, 999, 1000];
+pub const CONSTS: [u64; 3] = [0, 155_381, 1_000_000];
+pub const BOUNDARIES: [i128; 10] = [0, 23, 24, 255, 256, 65_535, 65_536, 4_294_967_295, 4_294_967_296, 1_000_000_000];
 
 impl C05 {
     /// Multi-UTxO input whose threshold depends on the fee, against a wallet of small UTxOs: the real fee can
@@ -172,7 +172,7 @@ impl C05 {
         amounts.reverse();
         let sum_k: i128 = amounts.iter().take(k).sum();
         let q = (sum_k - fee_level + rng.range(-30_000, 30_000) as i128).max(1).min(total);
-        let rounds_limit = *rng.pick(&[0usize, 3, 10]);
+        let rounds_limit = *rng.pick(&[0usize, 1, 2, 3, 10]);
         let st = LoggedStore::new(store.clone());
         let mut mc = MonitoredCompiler::new(env::compiler(&pp));
         ctx.eval();
@@ -309,7 +309,7 @@ impl Property for C05 {
             Some(0) => "margin/zero",
             _ => "margin/some",
         });
-        let rounds_limit = *rng.pick(&[0usize, 3, 10]);
+        let rounds_limit = *rng.pick(&[0usize, 1, 2, 3, 10]);
         let src = print_program(&program(&shape), Layout::plain());
         let Ok(lowered) = front(&src, "pay") else {
             ctx.count("front/rejected");
